@@ -928,7 +928,11 @@ pub trait ParallelBridge: Sized {
 impl<I: Iterator> ParallelBridge for I {
     type Item = I::Item;
     fn par_bridge(self) -> ParIter<VecP<I::Item>> {
-        ParIter(VecP { v: self.collect() })
+        let items: Vec<I::Item> = self.collect();
+        let order = crate::sim::decide_bridge_order(items.len());
+        let mut slots: Vec<Option<I::Item>> = items.into_iter().map(Some).collect();
+        let v = order.into_iter().map(|i| slots[i].take().expect("a permutation")).collect();
+        ParIter(VecP { v })
     }
 }
 
